@@ -232,6 +232,8 @@ def cfg_name(run):
         s += "-" + run["alloc"]
     if run.get("profile"):
         s += "-" + run["profile"]
+    if run.get("pre"):
+        s += "-after(" + run["pre"] + ")"
     return s
 
 
@@ -240,7 +242,7 @@ def witness(case, run, trace, verdict, profile=None):
          "level": run.get("level", 0), "mode": run.get("mode", "exec")}
     if run.get("mode") == "limited":
         w["budget"] = run.get("budget")
-    for k in ("outFail", "inFail", "inAbsent", "outAbsent", "alloc", "pregrow"):
+    for k in ("outFail", "inFail", "inAbsent", "outAbsent", "alloc", "pregrow", "pre"):
         if run.get(k) not in (None, -1, 0, "sys"):
             w[k] = run[k]
     if profile:
